@@ -209,6 +209,16 @@ func runResp(c respCase) harness.Result {
 			return harness.Fail("%s: the frame returned by Bytes() changed after another response was parsed and encoded: now %x, was %x", p.Name, re, frame)
 		}
 	}
+	// the exported exception recognisers (what a client configured with NewClient applies to the bytes received so far): a well-formed
+	// normal response is not an exception - neither the whole frame nor its first 5 (RTU) / 9 (TCP) bytes
+	for _, n := range []int{len(frame), recogniserLen(c.Framing)} {
+		if n > len(frame) {
+			continue
+		}
+		if err := recognise(c.Framing, frame[:n]); err != nil {
+			return harness.Fail("%s reports the first %d bytes of the well-formed fc%d response %x as an exception: %T %v", recogniserName(c.Framing), n, c.Resp.FC, frame, err, err)
+		}
+	}
 	nt := len(c.Resp.Data) > 0 || c.Resp.FC == 5 || c.Resp.FC == 6 || c.Resp.FC == 15 || c.Resp.FC == 16 || c.Resp.FC == 17
 	return harness.Result{NonTrivial: nt, Labels: labels}
 }
@@ -260,7 +270,48 @@ func runExc(c excCase) harness.Result {
 			}
 		}
 	}
+	// the exported recognisers agree
+	err := recognise(c.Framing, append([]byte(nil), frame...))
+	if err == nil {
+		return harness.Fail("%s does not recognise the exception frame %x", recogniserName(c.Framing), frame)
+	}
+	var et *packet.ErrorResponseTCP
+	var er *packet.ErrorResponseRTU
+	switch {
+	case c.Framing == spec.TCP && errors.As(err, &et) && et != nil:
+		if et.TransactionID != c.Tx || et.UnitID != c.Unit || et.Function != c.FC&0x7F || et.Code != c.Code {
+			return harness.Fail("AsTCPErrorPacket: exception %+v does not carry tx=%d unit=%d fc=%d code=%d", *et, c.Tx, c.Unit, c.FC&0x7F, c.Code)
+		}
+	case c.Framing == spec.RTU && errors.As(err, &er) && er != nil:
+		if er.UnitID != c.Unit || er.Function != c.FC&0x7F || er.Code != c.Code {
+			return harness.Fail("AsRTUErrorPacket: exception %+v does not carry unit=%d fc=%d code=%d", *er, c.Unit, c.FC&0x7F, c.Code)
+		}
+	default:
+		return harness.Fail("%s: error %T %v for exception frame %x is not the framing's exception type", recogniserName(c.Framing), err, err, frame)
+	}
 	return harness.Result{NonTrivial: true, Labels: []string{"exception", c.Framing.String()}}
+}
+
+func recognise(f spec.Framing, b []byte) error {
+	if f == spec.TCP {
+		return packet.AsTCPErrorPacket(b)
+	}
+	return packet.AsRTUErrorPacket(b)
+}
+
+func recogniserName(f spec.Framing) string {
+	if f == spec.TCP {
+		return "AsTCPErrorPacket"
+	}
+	return "AsRTUErrorPacket"
+}
+
+// recogniserLen is the length of an exception frame of the framing.
+func recogniserLen(f spec.Framing) int {
+	if f == spec.TCP {
+		return 9
+	}
+	return 5
 }
 
 var chkExc = harness.Define("exception-frames",
